@@ -116,6 +116,8 @@ std::string describe_addr(uintptr_t a);
 
 // heap layer statistics
 size_t live_repo_blocks();
+// members >= 1 run with their own TLS block (thread_local / threadprivate objects are per member)
+bool member_tls_enabled();
 
 // called when a run cannot continue (step budget exceeded = "no-progress", deadlock): the hook
 // prints the run's result line; the process then exits with status 3 (it is poisoned).
